@@ -22,8 +22,13 @@ def series(kind):
         days = np.cumsum([0, 29, 31, 30, 33, 28, 31, 30, 31, 29, 32, 30])
         idx = pd.DatetimeIndex([pd.Timestamp("2021-01-05", tz="UTC") + pd.Timedelta(days=int(d)) for d in days])
     vals = np.arange(1.0, len(idx) + 1)
+    # missing reads placed exactly where first+max_days (or mid-max_days) lands for the max_days values enumerated below
     if kind == "daily":
-        vals[7] = np.nan
+        vals[[7, 13]] = np.nan
+    elif kind == "hourly":
+        vals[[24, 31]] = np.nan
+    else:
+        vals[4] = np.nan
     return pd.DataFrame({"value": vals}, index=idx)
 
 
@@ -33,13 +38,13 @@ def instants(df):
             "on_mid": i[len(i) // 2], "on_last": i[-1], "after_all": i[-1] + 9 * DAY}
 
 
-def check_baseline(df, end, max_days, overshoot, ignore, ndays):
+def check_baseline(df, end, max_days, overshoot, ignore, ndays, start=None):
     from opendsm.eemeter.common.transform import get_baseline_data
     from opendsm.eemeter.common.exceptions import NoBaselineDataError
     before = df.copy(deep=True)
     bad = []
     try:
-        res, warns = get_baseline_data(df, end=end, max_days=max_days, allow_billing_period_overshoot=overshoot,
+        res, warns = get_baseline_data(df, start=start, end=end, max_days=max_days, allow_billing_period_overshoot=overshoot,
                                        n_days_billing_period_overshoot=ndays, ignore_billing_period_gap_for_day_count=ignore)
     except NoBaselineDataError:
         res = None
@@ -48,6 +53,8 @@ def check_baseline(df, end, max_days, overshoot, ignore, ndays):
     if not df.equals(before):
         bad.append("input modified")
     sel = before[before.index <= end] if end is not None else before
+    if start is not None:
+        sel = sel[sel.index >= start] if not overshoot else sel
     if res is None:
         if end is not None and max_days is not None and not overshoot and not ignore:
             lo = end - pd.Timedelta(days=max_days)
@@ -61,6 +68,18 @@ def check_baseline(df, end, max_days, overshoot, ignore, ndays):
         bad.append(f"row after the requested end: {res.index.max()} > {end}")
     if end is not None and len(sel) and res.index[-1] != sel.index[-1]:
         bad.append("slice does not reach the last row at or before the end")
+    if overshoot and end is not None and max_days is not None and not ignore:
+        # first returned row is a row nearest to end - max_days among ALL rows at or before the end
+        target = end - pd.Timedelta(days=max_days)
+        cand = before.index[before.index <= end]
+        if len(cand) and abs(res.index[0] - target) > abs(cand - target).min():
+            bad.append(f"overshoot: first row {res.index[0]} is not a row nearest to {target}")
+    if start is not None and not overshoot and (res.index < start).any():
+        bad.append("row before the requested start")
+    if start is not None:
+        gs = "eemeter.get_baseline_data.gap_at_baseline_start" in [w.qualified_name for w in warns]
+        if not overshoot and gs != (start < before.index.min()):
+            bad.append(f"gap_at_baseline_start warning {gs} but start<data_start is {start < before.index.min()}")
     if end is not None and max_days is not None and not overshoot:
         ref = (sel.index[-1] if ignore and (ndays is None or end - pd.Timedelta(days=ndays) < sel.index[-1]) else end)
         lo = ref - pd.Timedelta(days=max_days)
@@ -79,13 +98,13 @@ def check_baseline(df, end, max_days, overshoot, ignore, ndays):
     return bad
 
 
-def check_reporting(df, start, max_days, overshoot, ignore):
+def check_reporting(df, start, max_days, overshoot, ignore, end=None):
     from opendsm.eemeter.common.transform import get_reporting_data
     from opendsm.eemeter.common.exceptions import NoReportingDataError
     before = df.copy(deep=True)
     bad = []
     try:
-        res, warns = get_reporting_data(df, start=start, max_days=max_days, allow_billing_period_overshoot=overshoot,
+        res, warns = get_reporting_data(df, start=start, end=end, max_days=max_days, allow_billing_period_overshoot=overshoot,
                                         ignore_billing_period_gap_for_day_count=ignore)
     except NoReportingDataError:
         res = None
@@ -107,6 +126,17 @@ def check_reporting(df, start, max_days, overshoot, ignore):
         bad.append("row before the requested start")
     if start is not None and len(sel) and res.index[0] != sel.index[0]:
         bad.append("slice does not begin at the first row at or after the start")
+    if overshoot and start is not None and max_days is not None and not ignore:
+        target = start + pd.Timedelta(days=max_days)
+        cand = before.index[before.index >= start]
+        if len(cand) and abs(res.index[-1] - target) > abs(cand - target).min():
+            bad.append(f"overshoot: last row {res.index[-1]} is not a row nearest to {target}")
+    if end is not None and not overshoot and (res.index > end).any():
+        bad.append("row after the requested end")
+    if end is not None:
+        ge = "eemeter.get_reporting_data.gap_at_reporting_end" in [w.qualified_name for w in warns]
+        if not overshoot and ge != (before.index.max() < end):
+            bad.append(f"gap_at_reporting_end warning {ge} but data_end<end is {before.index.max() < end}")
     if start is not None and max_days is not None and not overshoot:
         ref = sel.index[0] if ignore else start
         hi = ref + pd.Timedelta(days=max_days)
@@ -128,22 +158,23 @@ def check_reporting(df, start, max_days, overshoot, ignore):
 def replay(case):
     df = series(case["series"])
     t = instants(df)[case["instant"]] if case["instant"] else None
+    o = instants(df)[case["other"]] if case.get("other") else None
     if case["fn"] == "baseline":
-        bad = check_baseline(df, t, case["max_days"], case["overshoot"], case["ignore"], case["ndays"])
+        bad = check_baseline(df, t, case["max_days"], case["overshoot"], case["ignore"], case["ndays"], start=o)
     else:
-        bad = check_reporting(df, t, case["max_days"], case["overshoot"], case["ignore"])
+        bad = check_reporting(df, t, case["max_days"], case["overshoot"], case["ignore"], end=o)
     return {"ok": not bad, "problems": bad}
 
 
 def run(tier="quick", seed=0):
     b = Bounded("C20", "C20.enumerated", MODULE,
                 "real get_baseline_data/get_reporting_data on {daily 40 rows with a NaN, hourly 96 rows, 12 irregular billing periods} x "
-                "{no limit, before all data, on first/mid/last timestamp, between two, after all} x max_days {None,0,5,17,400} x overshoot x "
+                "{no limit, before all data, on first/mid/last timestamp, between two, after all} x max_days {None,0,1,5,7,17,123,400} x overshoot x "
                 "ignore-gap x n_days {None,3}; independent numpy oracle for the window contract; distinct = distinct case tuple",
                 exhaustive=True, known_findings=load_known("C20"))
     for kind in ("daily", "hourly", "billing"):
         for inst in (None, "before_all", "on_first", "between", "on_mid", "on_last", "after_all"):
-            for md in (None, 0, 5, 17, 400):
+            for md in (None, 0, 1, 5, 7, 17, 123, 400):
                 for ov, ig in itertools.product((False, True), repeat=2):
                     for fn in ("baseline", "reporting"):
                         for nd in ((None, 3) if fn == "baseline" and (ov or ig) else (None,)):
@@ -152,5 +183,21 @@ def run(tier="quick", seed=0):
                                 r = replay(case)
                             except Exception as e:  # noqa
                                 r = {"ok": False, "problems": [f"harness exception {type(e).__name__}: {e}"]}
-                            b.case("C20.enumerated." + fn, case, r["ok"], nontrivial_key=tuple(case.values()), detail=r["problems"])
+                            known = None
+                            if ov and (inst is None or md is None) and any("Overflow" in p or "OutOfBounds" in p for p in r["problems"]):
+                                known = "C20-overshoot-unbounded"
+                            b.case("C20.enumerated." + fn, case, r["ok"], nontrivial_key=tuple(case.values()), detail=r["problems"],
+                                   known_id=known)
+    # both limits explicit (max_days=None): gaps at either end are reported independently
+    for kind in ("daily", "billing"):
+        for a in ("before_all", "on_first", "between", "after_all"):
+            for c in ("before_all", "between", "on_last", "after_all"):
+                for fn in ("baseline", "reporting"):
+                    case = {"fn": fn, "series": kind, "instant": c if fn == "baseline" else a, "other": a if fn == "baseline" else c,
+                            "max_days": None, "overshoot": False, "ignore": False, "ndays": None}
+                    try:
+                        r = replay(case)
+                    except Exception as e:  # noqa
+                        r = {"ok": False, "problems": [f"harness exception {type(e).__name__}: {e}"]}
+                    b.case("C20.enumerated." + fn, case, r["ok"], nontrivial_key=tuple(case.values()), detail=r["problems"])
     return b.result()
